@@ -79,8 +79,10 @@ def generate(seed, tier):
     if rw.random() < 0.15:
         data["nonfinite"] = [[rf.randrange(0, N + d), rf.choice(["nan", "pinf", "ninf"])] for _ in range(rf.randrange(1, 4))]
     singles = [[rw.randrange(0, 64)] for _ in range(rw.randrange(0, 3))]
-    if law == "gain" and rw.random() < 0.3:
-        singles.append(["edge", rw.choice([0.0, 0.5]), rw.choice([16, 32, 33, 64])])      # DC / Nyquist bin, explicit L
+    if rw.random() < 0.35:
+        # DC / Nyquist / above-Nyquist (accepted with a warning) single bins with explicit L
+        singles.append(["edge", rw.choice([0.0, 0.5, round(rw.uniform(0.5, 1.0), 4), round(rw.uniform(0.5, 1.0), 4)]), rw.choice([16, 32, 33, 64])])
+    rows_of_recording = rw.randrange(1, 2 ** 31) if rw.random() < 0.3 else None
     # attributes a user may read before the transfer function (exports, conditioned spectra, error bars ...)
     auto_first = rw.random() < 0.3      # the first channel analysed alone (same plan) before the pair, in the same process
     pre_access = rw.sample(RM.CROSS_ONLY + ["Gxx", "Gyy", "Gxy", "ENBW", "to_dataframe"], rw.randrange(0, 5)) if rw.random() < 0.5 else []
@@ -92,7 +94,7 @@ def generate(seed, tier):
         g2 = rw.choice([1.0, -1.0, 2.0, 0.5, -3.0, 7.0])
         data2 = dict(data, recipe=rw.choice(["noise", "multisine", "randwalk"]), rng=rw.randrange(2 ** 31), N=N + d2)
         refills.append({"law": law2, "g": g2, "d": d2, "data": data2})
-    return {"law": law, "g": g, "d": d, "N": N, "data": data, "cfg": cfg, "singles": singles, "refills": refills, "pre_access": pre_access, "auto_first": auto_first,
+    return {"law": law, "g": g, "d": d, "N": N, "data": data, "cfg": cfg, "singles": singles, "refills": refills, "pre_access": pre_access, "auto_first": auto_first, "rows_of_recording": rows_of_recording,
             "worlds": [W.gen_world(rf, k, 8) for k in kinds], "clock": CK.gen_clock(R.stream(seed, "clock"), p_none=0.5)}
 
 
@@ -123,7 +125,12 @@ def execute(sc, out):
     """Stage 0 and every refill stage run on ONE caller-owned (2, N) buffer that is overwritten in place
     (an analyzer may alias it; any cache keyed by buffer identity instead of content shows up here)."""
     stages = [sc] + [dict(sc, **r) for r in sc.get("refills", [])]
-    buf = np.empty((2, sc["N"]), dtype=np.float64)
+    if sc.get("rows_of_recording"):
+        big = np.random.default_rng(sc["rows_of_recording"]).normal(size=(4, sc["N"])) * 3.0
+        buf = big[2:4]              # the pair is a contiguous row-slice view of a larger recording
+        out.count("channels_are_rows_of_a_larger_recording")
+    else:
+        buf = np.empty((2, sc["N"]), dtype=np.float64)
     for si, st in enumerate(stages):
         if si:
             out.count("buffer_refilled_in_place")
@@ -175,6 +182,7 @@ def _execute_stage(sc, out, buf, stage):
                         pass
                 sing = []
                 edge = []
+                fres_pairs = []
                 nf = len(res.f)
                 for sg in sc["singles"]:
                     if sg[0] == "edge":
@@ -182,7 +190,12 @@ def _execute_stage(sc, out, buf, stage):
                             edge.append((sg[1] * cfg["fs"], sg[2], an.compute_single_bin(sg[1] * cfg["fs"], L=sg[2])))
                         continue
                     j = sg[0] % nf
-                    sing.append((j, an.compute_single_bin(float(res.f[j]), L=int(res.L[j]))))
+                    rs_L = an.compute_single_bin(float(res.f[j]), L=int(res.L[j]))
+                    sing.append((j, rs_L))
+                    Lj = int(res.L[j])
+                    rs_f = an.compute_single_bin(float(res.f[j]), fres=cfg["fs"] / (Lj + 0.37))     # rounds to the same L
+                    if int(rs_f.L[0]) == Lj:
+                        fres_pairs.append((j, complex(np.asarray(rs_L.Hxy)[0]), complex(np.asarray(rs_f.Hxy)[0])))
             W.absorb(out, ctx)
         except Exception as e:
             from dsim.sched import HarnessError
@@ -193,6 +206,11 @@ def _execute_stage(sc, out, buf, stage):
             continue
         per_world[world] = (res, sing)
         edge_world[world] = edge
+        for j, hL, hf in fres_pairs:
+            out.count("single_bin_fres_vs_L_route")
+            if not abs(hL - hf) <= 1e-9 * max(abs(hL), 1e-300):
+                out.violate("single_bin_fres_route_differs", f"backend={cfg['backend']}",
+                            f"world={world} bin {j}: compute_single_bin(f, L={int(res.L[j])}) gives Hxy={hL!r}, the same bin requested with fres (rounding to the same L) gives {hf!r}")
         out.count("world_" + world)
         if plan_ref is None:
             plan_ref = res
@@ -271,6 +289,29 @@ def _execute_stage(sc, out, buf, stage):
                 if not (abs(np.angle(dev)) < 0.5 and abs(abs(h) - 1.0) < 0.5):
                     out.violate("delay_law", f"backend={backend} via={via}",
                                 f"stage {stage} world={world} bin {j} (f={f[j]:.6g}, L={L}, d={d}): arg Hxy={np.angle(h):.4f} rad, expected {-(omega[j] * d):.4f} (mod 2pi); |Hxy|={abs(h):.4f}")
+    # single-bin requests at DC / Nyquist / above Nyquist: delay law (shift theorem holds for any omega), guarded by the reference model
+    if law == "delay":
+        for world, edges in edge_world.items():
+            backend = {"sim-numba": "numba", "real-numba": "numba", "numpy": "numpy", "sim-cuda": "cuda"}[world]
+            for fE, LE, rs in edges:
+                omE = 2 * np.pi * fE / fs
+                ph = (omE * d) % np.pi
+                if not (0.5 <= ph <= np.pi - 0.5):
+                    continue
+                wE = SC.reference_window(cfg0["win"], cfg0["psll"], int(LE))
+                (mxx, myy, mur, mui, m2), _, _, _ = RM.ref_stats(x, y, np.asarray(rs.D[0]), int(LE), wE, omE, cfg0["order"])
+                if not mxx > 0:
+                    continue
+                href = complex(mur, -mui) / mxx
+                devr = href * np.exp(1j * omE * d)
+                if not (abs(np.angle(devr)) <= 0.25 and abs(abs(href) - 1.0) <= 0.25):
+                    continue
+                h = complex(np.asarray(rs.Hxy)[0])
+                dev = h * np.exp(1j * omE * d)
+                out.count("delay_law_at_edge_or_above_nyquist")
+                if not (abs(np.angle(dev)) < 0.5 and abs(abs(h) - 1.0) < 0.5):
+                    out.violate("delay_law", f"backend={backend} via=single_edge",
+                                f"stage {stage} world={world} single bin at f={fE!r} (fs={fs}, L={LE}, d={d}): arg Hxy={np.angle(h):.4f}, expected {-(omE * d) % (2 * np.pi):.4f} (mod 2pi)")
     # DC / Nyquist single-bin requests: y = g*x holds there too (X real)
     if law == "gain":
         for world, edges in edge_world.items():
